@@ -383,7 +383,7 @@ Proof.
       + rewrite Hpid. rewrite Hgraft1. eapply graft_payload. exact Hg.
       + rewrite Hpid, Hgraft1 in Hrc.
         destruct (IHt (done ++ [c]) rc) as [r [Hr1 Hr2]]; [rewrite <- app_assoc; exact Hsplit | exact Hrc|].
-        exists r. split; [exact Hr1|]. cbn [flat_map]. rewrite fold_left_app, Hfold. exact Hr2. }
+        exists r. split; [exact Hr1|]. cbn [flat_map]. rewrite fold_left_app. unfold schema in *. rewrite Hfold. exact Hr2. }
   apply (G ch [] r0); [reflexivity | exact Hr0].
 Qed.
 
@@ -400,12 +400,6 @@ Proof.
     apply andb_true_iff in Hf as [Hf Hcf]. apply andb_true_iff in Hf as [Hpid Hpf]. apply Z.eqb_eq in Hpid.
     rewrite field_ids_app, field_ids_cons in Hnd. rewrite field_ids_cons in Hm1.
     destruct (subtree_roundtrip f done Hpf Hcf) as [r [Hr Hfold]].
-    + rewrite Hfold. rewrite Hpid in Hr. unfold graft in Hr. cbn in Hr. inversion Hr; subst r.
-      fold (to_fields rest). rewrite IH.
-      * rewrite <- app_assoc. reflexivity.
-      * exact Hrest.
-      * rewrite <- app_assoc. cbn [app]. rewrite field_ids_app, field_ids_cons. exact Hnd.
-      * intros X. apply Hm1. apply in_or_app. right. exact X.
     + apply NoDup_app_r in Hnd. apply NoDup_app_l in Hnd. exact Hnd.
     + intros x Hx. split.
       * intros Hin. clear - Hnd Hin Hx. induction (field_ids done) as [|y l IHl]; [destruct Hin|].
@@ -414,6 +408,12 @@ Proof.
         -- apply IHl; assumption.
       * intros ->. apply Hm1. apply in_or_app. left. exact Hx.
     + rewrite Hpid. unfold graft. cbn. eexists; reflexivity.
+    + unfold schema in *. rewrite Hfold. rewrite Hpid in Hr. unfold graft in Hr. cbn in Hr. inversion Hr; subst r.
+      fold (to_fields rest). rewrite IH.
+      * rewrite <- app_assoc. reflexivity.
+      * exact Hrest.
+      * rewrite <- app_assoc. cbn [app]. rewrite field_ids_app, field_ids_cons. exact Hnd.
+      * intros X. apply Hm1. apply in_or_app. right. exact X.
 Qed.
 
 Theorem fields_roundtrip (s : schema) : wf_schema s = true -> of_fields (to_fields s) = Ok s.
